@@ -650,7 +650,8 @@ func (c *TCPConn) Read(b []byte) (int, error) {
 
 type writeOp struct {
 	e    *TCPEnd
-	data []byte
+	src  []byte // the caller's buffer
+	data []byte // its content when the write is performed
 	g    string
 	n    int
 	err  error
@@ -662,6 +663,7 @@ func (o *writeOp) Ready() bool { return true }
 func (o *writeOp) Do() {
 	e := o.e
 	n := e.n
+	o.data = cloneBytes(o.src)
 	idx := e.Writes
 	e.Writes++
 	em := &Emission{Seq: len(n.Emissions), Step: n.K.Step, At: n.K.Elapsed(), Proto: "tcp",
@@ -825,7 +827,7 @@ func (c *TCPConn) Write(b []byte) (int, error) {
 	if len(b) > 0 {
 		simrt.RaceReadRange(unsafe.Pointer(&b[0]), len(b))
 	}
-	op := &writeOp{e: c.e, data: cloneBytes(b), g: name}
+	op := &writeOp{e: c.e, src: b, g: name} // the bytes are taken when the write is performed (see UDPConn.writeTo)
 	simrt.Trap(op, true)
 	if len(op.rest) > 0 && op.err == nil {
 		armDeadlineWake(c.e.n, c.e.wdl)
